@@ -69,3 +69,38 @@ Theorem C14_expression_string_literal_roundtrip : forall s rest,
   wx_str_decode 34 (tl (wx_lit_str s) ++ rest) = Some (s, rest).
 Proof. exact wx_lit_str_roundtrip. Qed.
 Print Assumptions C14_expression_string_literal_roundtrip.
+
+(* ---- the expression printer is inverted by the expression parser ----
+   For every well-formed expression (what the parser itself produces: identifiers that are not
+   reserved words, i64 literals, strings, object / array literals, member / index / call chains,
+   unary, binary and conditional operators at any nesting; no float literals), the text the
+   stringifier prints (Model/StrExpr.v, tied to stringify/expr.rs) followed by the end of the
+   binding is read back by the character-level parser model (Model/ExprParse.v, tied to
+   parse/expr.rs) as exactly that expression, leaving exactly the end of the binding. *)
+From GE Require Import Model.StrExpr Model.ExprParse Proofs.ExprRtTokens Proofs.ExprRoundTrip Proofs.NumRoundTrip.
+Theorem C14_expression_print_parse_roundtrip : forall names e, wf e -> forall rest,
+  parse_cond (sx_core names e ++ 125%N :: 125%N :: rest) = POk e (125%N :: 125%N :: rest).
+Proof. intros names e H rest. exact (print_parse_cond names num_roundtrip z_to_str_head e H rest). Qed.
+Print Assumptions C14_expression_print_parse_roundtrip.
+
+(* the same at every operand position: whatever follows, as long as it cannot continue the expression *)
+Theorem C14_expression_roundtrip_any_tail : forall names e, wf e -> forall tail,
+  follow_num tail -> stopsM tail -> stopsB 10 tail -> tok_cond tail = None ->
+  parse_cond (sx_core names e ++ tail) = POk e (skip tail).
+Proof. intros names e H. exact (rt_cond names e (wf_RT names num_roundtrip z_to_str_head e H)). Qed.
+Print Assumptions C14_expression_roundtrip_any_tail.
+
+(* non-vacuity: a nested expression with every kind of node is well-formed, and its round trip computes *)
+Example C14_roundtrip_example :
+  let e := ECond (EBin BLOr (EBin BLt (EField (lit "a")) (EUn UNeg (EInt 3)))
+                            (ECall (EMember (EField (lit "f")) (lit "g")) (XCons (EArr (AHole (ANormal (EStr (lit "x")) ANil))) XNil)))
+                 (EObj (ONamed (lit "k") (EField (lit "k")) (OSpread (EField (lit "o")) ONil)))
+                 (EIndex (EField (lit "l")) (EBin BAdd (EField (lit "i")) (EInt 1))) in
+  wf e /\ parse_cond (sx_core (fun _ => []) e ++ lit "}}") = POk e (lit "}}").
+Proof. split; [cbn; repeat split; (reflexivity || discriminate || (intro Hc; discriminate Hc))|vm_compute; reflexivity]. Qed.
+
+(* the number scanner reads back what the printer writes for a non-negative i64 *)
+Theorem C14_integer_literal_roundtrip : forall z tail, (0 <= z <= i64_max)%Z -> follow_num tail ->
+  num_result (z_to_str z ++ tail) = POk (EInt z) tail.
+Proof. exact num_roundtrip. Qed.
+Print Assumptions C14_integer_literal_roundtrip.
